@@ -182,3 +182,44 @@ def run_pairs(prop, S, outdir):
         res = Result(ob, "F", "verified", "", 0, meta)
     info = {"unit": "engine_f_pairs", "engine": "frame audit (vx inventory)", "cmd": f"{sites} emit sites of {sorted(PAIR)} in parsing/compiler.rs, each checked for a record in its call table within the enclosing match arm (directly or through a Compiler method that writes the table)", "wall_s": 0.0, "smt_s": 0.0, "trusted": [], "functions": ["parsing::compiler::Compiler::*"], "assumptions": ["engine F (calls): a syntactic pairing; that the recorded NAME is the emitted name, and what validation then does with the table, are not judged here (units tpl_merge, include_walk)"]}
     return [res], [info]
+
+
+BUILTIN_AUDIT = os.path.join(VERIF, "contracts", "builtin_table.json")
+
+
+def run_builtins(prop, S, outdir, rebaseline=False):
+    """the registration table of built-ins (Tera::register_builtin_{filters,tests,functions}): every audited
+    template-level name is still registered, and to the same function item"""
+    from driver import Result
+
+    if prop not in ("C17", "ALL"):
+        return [], []
+    ob = "frame/builtins/table"
+    meta = {"unit": "engine_f", "props": ["C17"], "what": "every built-in filter/test/function name is registered to the function item it was audited with"}
+    try:
+        src = S("tera/src/tera.rs")
+        cur = {}
+        for f in src.items:
+            if f["kind"] != "fn" or not f["path"].split("::")[-1].startswith("register_builtin_"):
+                continue
+            for m in f["nodes"]:
+                if m["kind"] == "methodcall" and m["method"] in ("register_filter", "register_test", "register_function") and len(m["args"]) == 2:
+                    name = src.text(*m["args"][0]["range"]).strip().strip('"')
+                    target = re.sub(r"\s+", "", src.text(*m["args"][1]["range"]))
+                    cur[m["method"].replace("register_", "") + ":" + name] = target
+    except Exception as e:  # noqa: BLE001
+        return [Result(ob, "F", "undecided", f"inventory failed: {e}", 0, meta)], []
+    if rebaseline or not os.path.exists(BUILTIN_AUDIT):
+        with open(BUILTIN_AUDIT, "w") as f:
+            json.dump(cur, f, indent=1, sort_keys=True)
+    audited = json.load(open(BUILTIN_AUDIT))
+    if len(cur) < 10:
+        res = Result(ob, "F", "undecided", f"vacuity guard: only {len(cur)} registrations found", 0, meta)
+    else:
+        wrong = [(k, audited[k], cur.get(k)) for k in sorted(audited) if cur.get(k) != audited[k]]
+        if wrong:
+            res = Result(ob, "F", "false", "built-in registered differently: " + ", ".join(f"`{k}` -> {c or 'not registered'} (audited: {a})" for k, a, c in wrong), 0, dict(meta, fn="tera::Tera::register_builtin_*"))
+        else:
+            res = Result(ob, "F", "verified", "", 0, meta)
+    info = {"unit": "engine_f_builtins", "engine": "frame audit (vx inventory)", "cmd": f"{len(cur)} register_filter/register_test/register_function sites of Tera::register_builtin_* vs contracts/builtin_table.json", "wall_s": 0.0, "smt_s": 0.0, "trusted": [], "functions": ["tera::Tera::register_builtin_filters", "tera::Tera::register_builtin_tests", "tera::Tera::register_builtin_functions"], "assumptions": ["engine F (built-ins): the audited table pairs each template-level name with the function item of the same name (`str` -> as_str, `escape_html` -> escape, tests `x` -> is_x), judged by reading; added names are not judged"]}
+    return [res], [info]
